@@ -401,6 +401,30 @@ func TestVerifC10SM4(t *testing.T) {
 						if !bytes.Equal(rec2[:len(hdr)], hdr) {
 							r.Violation("open-modifies-header-of-record:"+pn, d)
 						}
+						// a FORGED payload behind the same header: the call fails, and the header - which is the dst prefix AND
+						// the additional data, i.e. an input - must still be what it was; the genuine record opens afterwards
+						if len(wantS) > 0 {
+							rec3 := append(append([]byte{}, hdr...), wantS...)
+							rec3[len(hdr)+rng.Intn(len(wantS))] ^= 0x10
+							nonce3 := gNonce.B
+							if variant == 2 && a.NonceSize() <= len(hdr) {
+								nonce3 = append([]byte{}, rec3[len(hdr)-a.NonceSize():len(hdr)]...)
+							}
+							var e3 error
+							p, msg, _, _ = hk.Try(func() { _, e3 = a.Open(rec3[:len(hdr)], nonce3, rec3[len(hdr):], rec3[:len(hdr)]) })
+							if p || e3 == nil {
+								d["panic"] = msg
+								r.Violation("forged-record-not-refused:"+pn, d)
+							} else if !bytes.Equal(rec3[:len(hdr)], hdr) {
+								d["header_after_failed_open"] = hk.Hex(rec3[:len(hdr)])
+								r.Violation("failed-open-modifies-additional-data-that-is-the-dst-prefix:"+pn, d)
+							}
+							rec4 := append(append(rec3[:0:0], rec3[:len(hdr)]...), wantS...)
+							p, msg, _, _ = hk.Try(func() { pt, oerr = a.Open(nil, nonce3, rec4[len(hdr):], rec4[:len(hdr)]) })
+							if (p || oerr != nil || !bytes.Equal(pt, c.pt)) && bytes.Equal(rec3[:len(hdr)], hdr) {
+								r.Violation("genuine-record-does-not-open-after-a-forged-one:"+pn, d)
+							}
+						}
 					}
 					r.Eval(fmt.Sprintf("%s|record-idiom(aad=dst-prefix)|pt[%s]", pn, kernelClass(len(c.pt))))
 				}
